@@ -842,6 +842,20 @@ def attrstride(run, rule='GROWTH'):
         if len(allocs) != 1 or len(strides) != 1:
             run.broken(rule, inst, 'the attribute block allocation (count * size) / the per-slot placement (block + i * size) of newSlot were not recognised (%d, %d)' % (len(allocs), len(strides)), fn.where())
             continue
+        # with tracing compiled in, Segment::freeSlot bumps a generation counter in the cell BEHIND the user attributes of a logged
+        # segment: `++userAttrs()[numUser]` under `logger()`.  newSlot then makes room for it under the same test
+        if cfg != 'Q0':
+            fs = fx.one('graphite2::Segment::freeSlot')
+            bump = [e_ for _, e_ in fs.elements() if e_['k'] == 'UnaryOperator' and e_.get('op') in ('pre++', 'post++') and 'userAttrs()' in fs.render(e_) and 'numUser()' in fs.render(e_)]
+            if bump:
+                room = [e_ for _, e_ in fn.elements() if e_['k'] in ('UnaryOperator', 'CompoundAssignOperator') and e_.get('op') in ('pre++', 'post++', '+=')
+                        and any(f_[0].endswith('logger()') and f_[1] == '!=' for f_ in dom.facts_at(fn, e_['i']))
+                        and fn.render(fn.strip(e_['c'][0])).replace(' ', '') in [x_ for x_ in allocs[0][1]]]
+                if not room:
+                    run.violated(rule, inst, fn.loc(allocs[0][0]) if isinstance(allocs[0][0], dict) and 'ln' in allocs[0][0] else fn.where(), 'with tracing compiled in, Segment::freeSlot increments `%s` when the face has a logger, '
+                                 'one cell behind the user attributes; newSlot no longer allocates that cell (no `++size` under logger() on the per-slot size %s): every freeSlot of a logged segment '
+                                 'writes into user attribute 0 of the next slot' % (fs.render(bump[0]), allocs[0][1]))
+                    continue
         common = set(allocs[0][1]) & set(strides[0][1])
         if common:
             run.held(rule, inst, fn.loc(strides[0][0]), 'allocated as %s, placed at i * %s' % (' * '.join(allocs[0][1]), sorted(common)[0]))
